@@ -60,13 +60,15 @@ theorem regOpt_route (s : Server) (tok c : Nat) : regOpt (route s tok).1.conns c
       | conn d => rfl
       | default =>
         simp only []
-        cases aget s.clients x.cid with
-        | none => rfl
-        | some d =>
-          simp only []
-          split
-          · (refine regOpt_set hx _ ?_ c; rfl)
-          · rfl
+        split
+        · rfl
+        · cases aget s.clients x.cid with
+          | none => rfl
+          | some d =>
+            simp only []
+            split
+            · (refine regOpt_set hx _ ?_ c; rfl)
+            · rfl
 
 theorem regOpt_settle (s : Server) (dst : Dest) (c : Nat) : regOpt (settle s dst).1.conns c = regOpt s.conns c := by
   cases dst with
@@ -89,7 +91,6 @@ theorem regOpt_settle (s : Server) (dst : Dest) (c : Nat) : regOpt (settle s dst
       (refine regOpt_set hd _ ?_ c; rfl)
   | dropped => rfl
   | filtered => rfl
-  | parked d => rfl
   | loop => rfl
 
 theorem regOpt_step (s : Server) (e : Event) (c : Nat) :
